@@ -80,7 +80,7 @@ DECIDED = {
             "2^53), so that its single IEEE operation is the rounding of exactly w*10^e. Truncated significands (more digits than the scanner "
             "keeps; trunc == true, 10^16 <= w < 10^19 as the scanner check shows): whenever parse_float answers from the Eisel-Lemire results "
             "for w and w+1 being equal, that answer is the rounding of both w*10^e and (w+1)*10^e, hence of the literal's exact value in "
-            "between (quick: 7 exponents; thorough: every exponent -307..345). The SSE digit reader simd_str2int (the 16-digit fraction reader of "
+            "between (quick: 7 exponents; thorough: every exponent -307..345 except -4, where one query stays undecided). The SSE digit reader simd_str2int (the 16-digit fraction reader of "
             "target-cpu=native builds) equals the decimal value of the digits for every need 1..16, every position and class of the "
             "first non-digit and every byte value (SMT over its MIR with lane-wise intrinsic models). The scanner in front of them, "
             "parse_number with parse_number_fraction and parse_exponent, by SMT per literal shape (1764 shapes quick, 40996 thorough, incl. malformed ones that must be rejected: sign x "
